@@ -4,7 +4,7 @@ use crate::core::{DynScenario, Tier};
 use crate::scen;
 
 pub fn all_scenarios() -> Vec<Box<dyn DynScenario>> {
-    vec![Box::new(scen::c16::C16), Box::new(scen::c14::C14), Box::new(scen::c02::C02), Box::new(scen::c03::C03), Box::new(scen::c05::C05), Box::new(scen::c06::C06)]
+    vec![Box::new(scen::c16::C16), Box::new(scen::c14::C14), Box::new(scen::c02::C02), Box::new(scen::c03::C03), Box::new(scen::c05::C05), Box::new(scen::c06::C06), Box::new(scen::c07::C07)]
 }
 
 pub fn find_scenario(name: &str) -> Option<Box<dyn DynScenario>> {
@@ -97,6 +97,15 @@ pub fn property(id: &str) -> Option<PropSpec> {
             assumptions: vec!["wire deliveries go through the real serialize/deserialize, whose own losslessness is C11's subject"],
             components_real: vec!["CpcUnion::update (cases A-D, reduce_k) / to_sketch / num_coupons / lg_k", "CpcSketch::serialize + deserialize on wire deliveries"],
             components_stub: vec!["at-least-once network", "OR-of-folded-matrices model (oracle)"],
+        },
+        "C07" => PropSpec {
+            id: "C07",
+            level: "exploration",
+            parts: vec![p("c07_frequent_items", REL, BOTH)],
+            rule: "one run = 2-6 nodes with FrequentItemsSketch<i64|u64|String> (equal or mixed map sizes 8..=2048), a script of update bursts (all-equal counts filling the map exactly so that a purge removes every counter; Zipf-skewed; all-distinct; one giant plus dust; weights to 2^40), flushes between arbitrary nodes (a random merge tree/DAG; in memory or as a serialize() image over an exactly-once network with reorder, wire duplicates suppressed by the receiver, loss/retransmit), framed checkpoints (synced or not) and crash/restart (torn or surviving newest generation, fallback to the older one, WAL replay). After every event: total_weight exact, active items <= capacity, maximum_error <= epsilon*total for single-size ancestries; after every merge / restart / Check and at quiescence, for EVERY item of the domain: lb <= truth <= ub, ub-lb <= maximum_error, estimate in {0} U [lb,ub]; frequent_items(NoFalsePositives) subset of, (NoFalseNegatives) superset of, the true heavy hitters; rows sorted and equal to point queries. Non-trivial = a wire delivery or a restart happened; distinct = distinct (item kind, fault kinds, probes, sequence of flush kinds).",
+            assumptions: vec!["exactly-once delivery is provided by the harness (receiver de-dup); duplicates never reach merge()", "the harness WAL is durable; only checkpoint images can be torn, and torn ones are rejected by the harness frame CRC, never handed to the library"],
+            components_real: vec!["FrequentItemsSketch<i64|u64|String>: update_with_count, merge, purge/resize, estimate/lower_bound/upper_bound/maximum_error/total_weight/frequent_items, serialize/deserialize on wire and checkpoint paths"],
+            components_stub: vec!["exactly-once network", "framed checkpoint store + WAL", "exact frequency map (oracle)"],
         },
         _ => return None,
     })
